@@ -413,6 +413,7 @@ def run(ctx):
     # 5. end to end: the index a repository loads itself
     e2e_n = 0
     e2e_viol, e2e_mism = [], []
+    fault_res = {}
     if model and not ctx.replay:
         want = 400 if ctx.thorough() else 60
         sub, sublines = [], []
@@ -435,6 +436,10 @@ def run(ctx):
                 mpart, _, opart = mo.partition(" | ")
                 if io.strip() == "panic":
                     e2e_mism.append((ln, ["e2e harness panicked"])); continue
+                io, _, fres = io.partition(" | F ")
+                fault_res[fres.strip()] = fault_res.get(fres.strip(), 0) + 1
+                if fres.strip() == "differs":
+                    e2e_viol.append(("an index built although the read of one index file failed answers differently from what the index files say (read fault while Repository::to_indexed loads the index)", ln, "fault: the (number of queries mod number of index files)-th read_full(Index) fails once; to_indexed returned Ok", parse_oracle(mo.partition(" | ")[2], nq)))
                 ir = parse_modes(io, nq, with_iter=False, ntok=3); mr = parse_modes(mpart, nq, ntok=3)[:2]; orc = parse_oracle(opart, nq)
                 e2e_n += 1
                 for what, detail in check_against_oracle(c, ir, orc, MODES[:2]):
@@ -483,11 +488,11 @@ def run(ctx):
                         pr_mism.append((ln, ["prune_plan: tree %s read impl %s model %s" % (i, rr, m_r)]))
     cov.update({
         "evaluations": len(cases) + e2e_n + rel_n + pr_n, "distinct_nontrivial": len(nontriv),
-        "rule": "case = 0-5 index files x 0-6 packs + 0-2 packs_to_delete each, <= %d blobs, ids drawn from a small pool (duplicates across packs and files, same id under both types, ids adjacent in the first and in the last byte, 0 and max), empty packs, explicit and header-derived pack sizes incl. u32 overflow, occasional mixed-type packs; every pool id queried under both types plus absent neighbours, in all three IndexTypes and in the index prune builds for itself (both sections, trees only); the overflow cases and a sample of the others also against a release build of the harness (wrapping u32); repository cases also issue blob_from_backend over a recording backend; non-trivial = at least one query listed and one not listed, no overflow; distinct by case text" % maxblobs,
+        "rule": "case = 0-5 index files x 0-6 packs + 0-2 packs_to_delete each, <= %d blobs, ids drawn from a small pool (duplicates across packs and files, same id under both types, ids adjacent in the first and in the last byte, 0 and max), empty packs, explicit and header-derived pack sizes incl. u32 overflow, occasional mixed-type packs; every pool id queried under both types plus absent neighbours, in all three IndexTypes and in the index prune builds for itself (both sections, trees only); the overflow cases and a sample of the others also against a release build of the harness (wrapping u32); repository cases also issue blob_from_backend over a recording backend, and every second index file of a repository case carries a `supersedes` list naming its (still present) predecessor and an id that does not exist - the model has no such field, a present file counts whatever others say about it; each repository case is loaded once more with one failing read of an index file: the load must fail or answer as the fault-free load does; non-trivial = at least one query listed and one not listed, no overflow; distinct by case text" % maxblobs,
         "samples": samples, "distribution": hist,
         "queries_evaluated": nq_total,
         "traces_validated_against_impl": len(cases) + e2e_n + rel_n + pr_n,
-        "e2e_repository_cases": e2e_n, "prune_plan_cases": pr_n, "release_build_cases": rel_n, "release_build_overflow_cases": rel_over,
+        "e2e_repository_cases": e2e_n, "e2e_index_read_fault_outcomes": fault_res, "prune_plan_cases": pr_n, "release_build_cases": rel_n, "release_build_overflow_cases": rel_over,
         "disagreements_checked": len(mism) + len(viol) + len(e2e_mism) + len(e2e_viol) + len(rel_mism) + len(rel_viol) + len(pr_mism) + len(pr_viol),
         "get_id_differences_within_candidate_set": nondet_ok,
         "model_impl_mismatches": len(mism) + len(e2e_mism) + len(rel_mism) + len(pr_mism), "oracle_violations": len(viol) + len(e2e_viol) + len(rel_viol) + len(pr_viol)})
